@@ -36,6 +36,7 @@ type SuiteDef struct {
 	MacLen, KeyLen, IVLen int
 	AEAD                  bool
 	GM                    bool // GM/T 0024 ECC suite (SM2 key exchange, SM3 PRF, SM4); otherwise TLS 1.2 RSA/AES
+	ECDHE                 bool // ECDHE key exchange (RSA or ECDSA authenticated); otherwise RSA key exchange
 	prfHash, macHash      func() hash.Hash
 	newBlock              func(key []byte) (cipher.Block, error)
 }
@@ -48,6 +49,15 @@ var suiteDefs = []SuiteDef{
 	{ID: SuiteRSAAES128GCM, MacLen: 0, KeyLen: 16, IVLen: 4, AEAD: true, prfHash: sha256.New, newBlock: aes.NewCipher},
 	{ID: SuiteRSAAES256CBC, MacLen: 20, KeyLen: 32, IVLen: 16, prfHash: sha256.New, macHash: sha1.New, newBlock: aes.NewCipher},
 	{ID: SuiteRSAAES256GCM, MacLen: 0, KeyLen: 32, IVLen: 4, AEAD: true, prfHash: sha512.New384, newBlock: aes.NewCipher},
+	// TLS_ECDHE_{RSA,ECDSA}_WITH_AES_{128_GCM_SHA256,256_GCM_SHA384,128_CBC_SHA,256_CBC_SHA}
+	{ID: 0xc02f, ECDHE: true, MacLen: 0, KeyLen: 16, IVLen: 4, AEAD: true, prfHash: sha256.New, newBlock: aes.NewCipher},
+	{ID: 0xc02b, ECDHE: true, MacLen: 0, KeyLen: 16, IVLen: 4, AEAD: true, prfHash: sha256.New, newBlock: aes.NewCipher},
+	{ID: 0xc030, ECDHE: true, MacLen: 0, KeyLen: 32, IVLen: 4, AEAD: true, prfHash: sha512.New384, newBlock: aes.NewCipher},
+	{ID: 0xc02c, ECDHE: true, MacLen: 0, KeyLen: 32, IVLen: 4, AEAD: true, prfHash: sha512.New384, newBlock: aes.NewCipher},
+	{ID: 0xc013, ECDHE: true, MacLen: 20, KeyLen: 16, IVLen: 16, prfHash: sha256.New, macHash: sha1.New, newBlock: aes.NewCipher},
+	{ID: 0xc009, ECDHE: true, MacLen: 20, KeyLen: 16, IVLen: 16, prfHash: sha256.New, macHash: sha1.New, newBlock: aes.NewCipher},
+	{ID: 0xc014, ECDHE: true, MacLen: 20, KeyLen: 32, IVLen: 16, prfHash: sha256.New, macHash: sha1.New, newBlock: aes.NewCipher},
+	{ID: 0xc00a, ECDHE: true, MacLen: 20, KeyLen: 32, IVLen: 16, prfHash: sha256.New, macHash: sha1.New, newBlock: aes.NewCipher},
 }
 
 // Suite returns the definition of a suite the reference implements.
